@@ -54,16 +54,16 @@ static std::vector<CheckDef> g_checks = {
           "states; distinct_nontrivial: distinct (algorithm, family, reject kind, |in flight| at the reject, API level) cells with a "
           "before/after image comparison",
           { "the error field of the rejected context is the reported result and is exempt from the byte-image comparison" } },
-        { "C05", "exploration", { { "stream", 1 } }, 30000, 3000000, 50, 900, false, false,
+        { "C05", "exploration", { { "stream", 9 }, { "l2mgr", 1 } }, 30000, 3000000, 50, 900, false, false,
           "cases: seeded plans of 1-4 interleaved stream clients (mh_sha1 / mh_sha256 biased) x family x stream length class x fragmentation x "
           "restart; distinct_nontrivial: distinct (kind, family, carried bytes / 64, fragment class) cells exercised",
           { "multi-hash reference written from the property text, byte order of the final hash input taken from the pinned implementation",
             "sampling, not proof" } },
-        { "C10", "exploration", { { "stream", 1 } }, 30000, 3000000, 50, 900, false, false,
+        { "C10", "exploration", { { "stream", 9 }, { "l2mgr", 1 } }, 30000, 3000000, 50, 900, false, false,
           "cases: as C05 with mh_sha1_murmur3_x64_128 clients and a 64-bit seed per stream; distinct_nontrivial: distinct (family, carried bytes / 64, "
           "fragment class) cells",
           { "MurmurHash3_x64_128 reference checked against published vectors at start-up" } },
-        { "C09", "exploration", { { "stream", 1 } }, 12000, 3000000, 50, 900, false, false,
+        { "C09", "exploration", { { "stream", 9 }, { "l2mgr", 1 } }, 8000, 3000000, 50, 900, false, false,
           "cases: rolling-hash clients (window 1..48, mask/trigger classes, scan implementation base/_00/_04) fed by arbitrary run-call "
           "splits, twin clients on the same stream, one >= 2^31-byte run per implementation; distinct_nontrivial: distinct "
           "(implementation, w, max_len class, hit position class) cells",
@@ -614,7 +614,7 @@ static void worker_main(int wid, int W, const CheckDef &cd, const std::string &t
                 uint64_t seed_i = mix64(verif_seed, i);
                 // pick the sim
                 Rng pick(seed_i, "simpick");
-                int x = (int) pick.below(totw);
+                int x = i < 8 ? 0 : (int) pick.below(totw); // the first runs belong to the check's primary simulation (rare huge cases live there)
                 const char *sname = cd.sims[0].sim;
                 for (auto &sw : cd.sims) {
                         if (x < sw.weight) {
@@ -1013,7 +1013,7 @@ static int selftest_determinism(const std::string &prop, uint64_t n)
                         continue;
                 uint64_t seed_i = mix64(verif_seed, i);
                 Rng pick(seed_i, "simpick");
-                int x = (int) pick.below(totw);
+                int x = i < 8 ? 0 : (int) pick.below(totw); // the first runs belong to the check's primary simulation (rare huge cases live there)
                 const char *sname = cdp->sims[0].sim;
                 for (auto &sw : cdp->sims) {
                         if (x < sw.weight) {
